@@ -10,6 +10,7 @@ require (
 	github.com/ipfs/go-test v0.4.1
 	github.com/ipld/go-ipld-prime v0.24.0
 	github.com/libp2p/go-libp2p v0.48.0
+	github.com/libp2p/go-msgio v0.3.0
 	github.com/multiformats/go-multihash v0.2.3
 	go.opentelemetry.io/otel/trace v1.44.0
 )
@@ -34,7 +35,6 @@ require (
 	github.com/koron/go-ssdp v0.0.6 // indirect
 	github.com/libp2p/go-buffer-pool v0.1.0 // indirect
 	github.com/libp2p/go-libp2p-asn-util v0.4.1 // indirect
-	github.com/libp2p/go-msgio v0.3.0 // indirect
 	github.com/libp2p/go-netroute v0.4.0 // indirect
 	github.com/mattn/go-isatty v0.0.22 // indirect
 	github.com/mr-tron/base58 v1.3.0 // indirect
